@@ -330,7 +330,11 @@ FAST = [c for c in CASES if c['id'] in OK_IDS]
 # one case per explicit builtin that corroborates the name -> closure dispatch.  The thorough tier runs every case.
 QUICK_IDS = {'math_ln_f', 'math_sqrt_i', 'floor_i', 'ceil_f', 'math_is_nan_f', 'math_is_finite_f', 'math_pow_tfie', 'math_pow_tife', 'math_atan2_tfie', 'math_log_tife',
              'bitand_tiie', 'bitor_tiie', 'bitxor_tiie', 'bitnot_i', 'shl_tiie', 'shr_tiie',
-             'typeof_f', 'math_abs_i', 'min_tiie', 'max_tffe', 'min_tffe', 'math_ln_b'}
+             'typeof_f', 'math_abs_i', 'min_tiie', 'max_tffe', 'min_tffe', 'math_ln_b',
+             # one dispatch case per macro-generated float builtin (name -> member), float shape
+             'math_acos_f', 'math_acosh_f', 'math_asin_f', 'math_asinh_f', 'math_atan_f', 'math_atanh_f', 'math_cbrt_f', 'math_cos_f', 'math_cosh_f',
+             'math_exp2_f', 'math_exp_f', 'math_log10_f', 'math_log2_f', 'math_sin_f', 'math_sinh_f', 'math_sqrt_f', 'math_tan_f', 'math_tanh_f',
+             'round_f', 'floor_f', 'math_hypot_tfie', 'math_is_infinite_f', 'math_is_normal_f', 'math_abs_f'}
 for c in FAST:
     c['tier'] = 'quick' if c['id'] in QUICK_IDS else 'thorough'
 pack([c for c in FAST if c['tier'] == 'quick'], 'bq', 'quick')
